@@ -2,7 +2,7 @@
 from .. import core, extract
 from ..core import Suite
 
-LEAN_TARGETS = ['Uds.Props.C01', 'Uds.Tie.Tables', 'Uds.Tie.Codecs', 'Uds.Tie.Groups']
+LEAN_TARGETS = ['Uds.Props.C01', 'Uds.Tie.Tables', 'Uds.Tie.Codecs', 'Uds.Tie.Groups', 'Uds.Tie.Names']
 ASSUMPTIONS = [
     'ISO 14229-1:2020 request layouts as transcribed in Uds/Spec/Request.lean (sub-function byte with the suppress bit in bit 7, parameters unsigned big-endian in table order)',
     'DID / IO codecs are user code: the model sees a codec as its payload length and a value as the bytes its encoding has (contract: encode returns len(codec) bytes)',
@@ -16,7 +16,7 @@ RULE = ('enc suite: structured calls on every service builder and wrapper (ReadD
 
 
 def generate(ctx):
-    extract.generate(['Tables', 'Codecs', 'Groups'])
+    extract.generate(['Tables', 'Codecs', 'Groups', 'Names'])
 
 
 HAS_SUBFN = {0x10, 0x11, 0x27, 0x28, 0x3E, 0x83, 0x85, 0x87, 0x31, 0x2C, 0x19, 0x29}
@@ -90,4 +90,10 @@ def suite_enc(ctx, focus='C01'):
     return s
 
 
-SUITES = [suite_enc]
+def suite_iso(ctx):
+    """arguments given by name: the library's sub-function constants carry the ISO values, and a call with the constant puts that value on the wire"""
+    from .. import isoconst
+    return isoconst.suite_iso(ctx, with_frames=True)
+
+
+SUITES = [suite_enc, suite_iso]
